@@ -83,6 +83,7 @@ type hist struct {
 	failed             bool
 	nn                 bool
 	loose              bool          // C12: the last structure walk saw a non-tight node box
+	far                float64       // when > 0, one object in six is an outlier at this distance
 	looseBox, looseEnv geom.Bounds   // that box and the true envelope of its subtree
 	palette            []geom.Bounds // when non-empty most new objects take one of these few boxes
 }
@@ -98,6 +99,18 @@ func (h *hist) newObj() stored {
 	r := h.r
 	h.nextID++
 	x0, y0 := h.coord(), h.coord()
+	if h.far > 0 && r.Chance(0.17) {
+		// an outlier 1e6 .. 1e13 times farther away than the local spacing: it shares nodes with
+		// near objects, whose boxes then are hugely elongated
+		if r.Bool() {
+			x0 = h.far * r.Range(1, 3) * float64(1-2*r.Intn(2))
+		} else {
+			y0 = h.far * r.Range(1, 3) * float64(1-2*r.Intn(2))
+		}
+		if !h.float {
+			x0, y0 = math.Round(x0), math.Round(y0)
+		}
+	}
 	w, ht := 0.0, 0.0
 	if r.Chance(0.7) {
 		if h.float {
@@ -438,6 +451,10 @@ func runHistory(c *core.Ctx, idx int, nn bool) {
 		pp = [][2]int{{25, 50}, {2, 64}, {32, 64}, {3, 100}, {16, 33}, {2, 40}, {10, 32}, {8, 17}, {20, 41}, {5, 48}}[r.Intn(10)] // large fan-outs (route uses 25/50)
 	}
 	h := &hist{c: c, r: r, min: pp[0], max: pp[1], float: r.Chance(0.3), hash: core.NewHasher(), nn: nn}
+	if r.Chance(0.12) {
+		h.far = math.Pow(10, r.Range(6, 13))
+		c.Count("hist.with_far_outliers")
+	}
 	if r.Chance(0.15) {
 		// few distinct boxes (1..5) shared by most objects
 		np := r.IntRange(1, 5)
